@@ -12,7 +12,8 @@ PIPE_TIES = {**thms(T + "Processor", ["tie_uplinkLookup", "tie_uplinkHandler", "
 
 PROPS = {
     "C01": {
-        "theorems": thms(P + "C01", ["C01_matching_iff", "C01_wrong_type_dropped", "C01_unauthentic_dropped", "C01_processes_only_authentic", "C11_reject_is_noop", "C11_deliver_total"]),
+        "theorems": {**thms(P + "C01", ["C01_matching_iff", "C01_wrong_type_dropped", "C01_unauthentic_dropped", "C01_processes_only_authentic", "C11_reject_is_noop", "C11_deliver_total"]),
+                     "LospanVerif.Props.C01All": ["LospanVerif.Props.C01.C01_handlers_authentic", "LospanVerif.Props.C01.auth_stepUplink", "LospanVerif.Props.C01.tauth_step"]},
         "ties": PIPE_TIES,
         "engines": ["pipeseq", "pipectl"],
         "assumptions": ["a corrupted frame whose MIC still verifies (2^-32 collision) is authentic by the property's own definition; the Lean device decides authenticity of every corrupted frame"],
@@ -181,9 +182,9 @@ PROPS = {
 
 MANIFEST_TEXT = {
     "C01": {
-        "level": "Lean theorems on the uplink handler model, for every registry, frame and cipher: the devices it goes on to process are exactly those for which the frame is authentic (registered, owns the address, non-zero NwkSKey verifies the MIC over the received bytes); non-uplink types and frames authentic for nobody end in the first step with the system untouched; a frame the decoder rejects is a no-op. Tied by regenerated handler skeletons and by sequential histories on the real pipeline (every corruption class incl. bit flips, truncation/extension, type rewrite, zero/foreign key) with the whole observable state compared with the model and an independent no-effect oracle.",
-        "note": "confinement of the later steps' effects to the authentic devices is decided by correspondence (state comparison), not yet a theorem",
-        "technique": "Lean 4 proof (decision logic stated outright) + regenerated handler skeleton tie + state-by-state correspondence on the real pipeline",
+        "level": "Lean theorems. For EVERY event list (every interleaving of any number of frames, faults, crashes): each uplink handler that is past its matching step - the only handlers that touch counters, the inbox, the queues or the output buffer, the matching step itself changing nothing - works on an uplink data frame whose MIC verifies over exactly the received octets under the established (not all-zero) network session key of the device copy it processes, at the frame's address (C01_handlers_authentic: thread-pool invariant). For every registry, frame and cipher: the devices the handler goes on to process are exactly those for which the frame is authentic (C01_matching_iff); non-uplink types and frames authentic for nobody end in the first step with the system untouched (C01_wrong_type_dropped, C01_unauthentic_dropped); a frame the decoder rejects is a no-op (C11_reject_is_noop). Tied by regenerated handler skeletons and by histories on the real pipeline (bit flips, truncation/extension, type rewrite, zero/foreign key, magic MIC values, downlink-typed frames that verify under the device's own key, shared addresses and keys) with the whole observable state compared with the model and an independent no-effect oracle decided by the Lean device.",
+        "note": "authenticity is relative to the device copy the handler read (a join completing in between replaces the keys); a 2^-32 MIC collision is authentic by the property's own definition",
+        "technique": "Lean 4 proof (thread-pool invariant by induction over all event lists; decision logic) + regenerated skeleton tie + trace correspondence + Spec-device oracle",
     },
     "C02": {
         "level": "Lean theorems for every block cipher E with 16-octet blocks, all keys, 32-bit addresses, 16-bit counters, ports 1..255, flag combinations, FOpts octets (up to 15, known or unknown identifiers) and payloads: every data frame a conformant device builds for an application port (Spec.Lorawan.buildFrame: FRMPayload encrypted in counter mode per 4.3.3, MIC per 4.4) IS ACCEPTED by the library's decoder, verifies under the NwkSKey over exactly the received octets and decrypts to exactly the device's plaintext with the device's address, counter and port (C02_device_frames_accepted = decoder totality on spec-parsable frames (Proofs/Total.lean) + spec round trip + C12_decode_fields + C02_mic_is_spec + C02_decrypt_is_spec + involution); the octets the library encodes are the specification's layout (C12_marshal_is_layout). That the pipeline hands exactly that plaintext, device, gateway and radio metadata to the application is decided on the real code (engine pipeseq with the reference observer); engines uplink and phyenc run the same statements differentially on the implementation.",
